@@ -1,9 +1,12 @@
 import Wasp.Model.MsgLog
 import Driver.Util
 /-! Driver for domain `msglog` (messages.Log + its consumer across process incarnations):
-      new | append <n> | run <k> <in|clean> | get <offset> -/
+      new | append <n> | run <k> <in|clean|sched> | get <offset> -/
 namespace Driver.MsgLog
 open Wasp.MsgLog
+
+/-- batch size of the commit log's polling consumer (vx-labs/commitlog/stream, default; modelled, not verified) -/
+def pollBatch : Nat := 10
 
 def showNats (l : List Nat) : String := "[" ++ " ".intercalate (l.map toString) ++ "]"
 
@@ -14,6 +17,21 @@ def step (s : State) (line : String) : State × String :=
   | ["append", n] =>
     let s' := (exec s (List.replicate n.toNat! .append)).1
     (s', s!"next={s'.log.next}")
+  | ["run", k, "sched"] =>
+    -- graceful stop (context cancelled) inside the k-th hand-over of wasp.SchedulePublishes: Consume looks at the context
+    -- between two BATCHES of the poller (10 records, counted from the record it was positioned on), so the rest of
+    -- the batch is handed over and committed — a clean stop after k' hand-overs
+    let k := k.toNat!
+    let avail := s.log.next - s.st
+    if k = 0 ∨ k ≥ avail then
+      let r := incarnation s (min k avail) false
+      (r.1, showNats r.2)
+    else
+      let from_ := s.st - 1
+      let last := s.st + k - 1
+      let batchEnd := from_ + pollBatch * ((last - from_) / pollBatch + 1)
+      let r := incarnation s (min batchEnd s.log.next - s.st) false
+      (r.1, showNats r.2)
   | ["run", k, phase] =>
     let r := incarnation s k.toNat! (phase = "in")
     (r.1, showNats r.2)
